@@ -26,8 +26,8 @@ for d in sorted(glob.glob(os.path.join(ROOT, "seeded", "C??_m?"))):
     what = (m.get("name") or "")[:60]
     files = ",".join(os.path.basename(f) for f in m.get("files", []))[:40]
     rows.append(f"| {tag} | {what} ({files}) | {kind} {first} | {h} | {others} |")
-txt = ("One hundred and twenty changes were produced by fresh sub-agents that saw only the property text and a scratch worktree (six rounds: m1, m2 two per property, "
-       "then m3, m4, m5 and m6 one per property each with a different area of the code suggested from the property text; `seeded/<id>/patch.diff`, `demo.rs`, `meta.json`). "
+txt = ("One hundred and forty changes were produced by fresh sub-agents that saw only the property text and a scratch worktree (seven rounds: m1, m2 two per property, "
+       "then m3 ... m7 one per property each with a different area of the code suggested from the property text; `seeded/<id>/patch.diff`, `demo.rs`, `meta.json`). "
        "Every one was confirmed by me in the agent's worktree: the demo passes without "
        "the patch and fails with it, and the unedited test suite passes with it (C02_m1 and C06_m1 fail one randomly-seeded test in some "
        "runs; the C18 changes are invisible to the default build and need the portable scanner). Each was then applied to a copy of `/repo` "
@@ -37,9 +37,12 @@ txt = ("One hundred and twenty changes were produced by fresh sub-agents that sa
        "round 5 (20): 13 with replay, 1 no-failing-input (C17_m5), 6 NOT reported (C02_m5 a relevance predicate; C03_m5 allocator identity; C05_m5, C07_m5, C10_m5, C11_m5 generator gaps); "
        "round 6 (20; many re-inventions of earlier changes): 14 with replay, 6 NOT reported -- C04_m6, C09_m6 and C13_m6 repeat changes that earlier generator states DID catch: "
        "their detection had depended on where random scripts happened to put an element, and unrelated generator edits had shifted the random stream; they are now caught by deterministic script "
-       "families and were re-run under three seeds; C06_m6 (HashTable clone), C10_m6 (drain of an empty table with tombstones) and C14_m6 (raw entry from_hash / rename) needed new operations. "
+       "families and were re-run under three seeds; C06_m6 (HashTable clone), C10_m6 (drain of an empty table with tombstones) and C14_m6 (raw entry from_hash / rename) needed new operations; "
+       "round 7 (20; every agent was told to change code that NO earlier round had touched -- the list of functions touched so far was computed from the stored patches): 13 with replay, 1 no-failing-input (C07_m7: the two sets always shared hasher state), "
+       "6 NOT reported (C03_m7, C11_m7: no zero-sized element type with drop glue / observable Clone; C04_m7: no callback faults on HashTable operations; C08_m7: shrink_to_fit on a table whose capacity() had fallen to len(); "
+       "C10_m7: extract_if on a sparse table with a two-group collision chain; C19_m7: par_eq on the same map object with a non-reflexive value). "
        "Every miss was traced to a gap in the *generators / operations / element kinds / relevance predicates* (never to a proof) and closed; see each `meta.json` "
-       "(`check_history`). The rounds also exposed two false alarms of my own (13.5). Final state: all 120 are reported by the check of their own property with a concrete, shrunk replay "
+       "(`check_history`). The rounds also exposed two false alarms of my own (13.5). Final state: all 140 are reported by the check of their own property with a concrete, shrunk replay "
        "(`seeded/MATRIX.json`: every check against every seed of rounds 1-2, quick tier). Column `also` lists the other "
        "properties' checks that report the same change (with a replay, or -- in parentheses -- as no-failing-input-found because the "
        "generated definitions or the bit-exact tie they share broke).\n\n"
